@@ -11,10 +11,14 @@
 (***************************************************************************)
 EXTENDS Naturals, Sequences, FiniteSets
 
-Cap       == 400     \* fresh rejections kept per trace
+Cap       == 25      \* fresh rejections kept per class (r.what plus r.cls when present) and trace
 KfSamples == 2       \* examples kept per known-finding class
 
-Book0 == [rej |-> <<>>, nrej |-> 0, kfn |-> <<>>]
+Book0 == [rej |-> <<>>, nrej |-> 0, kfn |-> <<>>, cn |-> <<>>]
+
+ClassOf(r) == IF "cls" \in DOMAIN r THEN r.what \o ":" \o r.cls ELSE r.what
+ClsIndex(cn, key) == IF \E j \in 1..Len(cn) : cn[j].key = key
+                     THEN CHOOSE j \in 1..Len(cn) : cn[j].key = key ELSE 0
 
 RECURSIVE JoinStr(_, _)
 JoinStr(ss, k) == IF k > Len(ss) THEN "" ELSE ss[k] \o "," \o JoinStr(ss, k + 1)
@@ -25,8 +29,12 @@ KfIndex(kfn, key) == IF \E j \in 1..Len(kfn) : kfn[j].key = key
 
 BookAdd1(b, r) ==
     IF r.kf = "none"
-    THEN [b EXCEPT !.nrej = @ + 1,
-                   !.rej = IF Len(SelectSeq(@, LAMBDA x : x.kf = "none")) < Cap THEN Append(@, r) ELSE @]
+    THEN LET key == ClassOf(r)
+             j   == ClsIndex(b.cn, key)
+             n   == IF j = 0 THEN 0 ELSE b.cn[j].n
+         IN [b EXCEPT !.nrej = @ + 1,
+                      !.cn = IF j = 0 THEN Append(@, [key |-> key, n |-> 1]) ELSE [@ EXCEPT ![j].n = @ + 1],
+                      !.rej = IF n < Cap THEN Append(@, r) ELSE @]
     ELSE LET key == KfKey(r)
              j   == KfIndex(b.kfn, key)
              n   == IF j = 0 THEN 0 ELSE b.kfn[j].n
